@@ -13,7 +13,7 @@ from .lib import deep_copy
 class Contract:
     def __init__(self, qual, params=None, requires=(), ensures=(), raises=None, loops=None, cuts=None,
                  mode='inline', result=None, modifies=(), cases=None, top=None, note='', old=(), setup=None,
-                 allow_raises=None, ghost=None, pure=False, use=(), let=None):
+                 allow_raises=None, ghost=None, pure=False, use=(), let=None, may_raise=None, use_entry=()):
         self.qual = qual
         self.params = dict(params or {})
         self.requires = [requires] if isinstance(requires, str) else list(requires)
@@ -31,6 +31,8 @@ class Contract:
         self.setup = setup                    # callable(ip, st, locals, case) building non-first-order inputs
         self.ghost = ghost or {}
         self.pure = pure
+        self.use_entry = [use_entry] if isinstance(use_entry, str) else list(use_entry)   # lemma instances assumed at entry
+        self.may_raise = dict(may_raise or {})   # {'Exc': cond}: may (not must) raise when cond held at entry
         self.let = dict(let or {})            # name -> expression over entry values, usable in ensures/raises
         self.use = [use] if isinstance(use, str) else list(use)     # lemma instances assumed at every normal exit
 
@@ -149,6 +151,9 @@ def entry_state(ip, con, case, fnode, module, cls):
         st.assume(ip._z(ip.truth(v, st)))
     for name, e in con.let.items():
         st.frame[name] = snapshot(ip, st, ip.eval_spec(e, st, {}))
+    if con.use_entry:
+        from .specs import use_lemmas
+        use_lemmas(ip, st, con.use_entry, {})
     return st, pnames, inputs
 
 
@@ -199,7 +204,7 @@ def verify_function(ip, con, fuel_note=None):
                     if con.raises is None:
                         continue
                     from .interp import exc_is
-                    conds = [c for exc, c in con.raises.items() if exc_is(v.cls, exc)]
+                    conds = [c for exc, c in list(con.raises.items()) + list(con.may_raise.items()) if exc_is(v.cls, exc)]
                     if not conds:
                         ip.oblige(s, z3.BoolVal(False), '%s#raises[none].%s%s@%d' % (con.qual, v.cls, _case_tag(ci, con), fnode.lineno),
                                   'raises', clause='no %s may escape' % v.cls, line=fnode.lineno, top=True,
@@ -247,15 +252,31 @@ def apply_contract(ip, con, fr, args, kwargs, st, node=None):
         alts = ['normal']
         if con.raises:
             alts += list(con.raises.keys())
+        alts += ['may:' + k for k in con.may_raise.keys()]
         c = ip.choose(st, len(alts))
         # havoc
         from .loops import havoc_object
         for m in con.modifies:
-            ref = ip.eval_spec(m, st, {})
+            node = ast.parse(m, mode='eval').body
+            ref = ip.eval_spec(node, st, {})
             if isinstance(ref, Ref):
                 havoc_object(ip, st, ref, m, {})
+            elif isinstance(node, ast.Attribute):
+                base = ip.eval_spec(node.value, st, {})
+                t = type_of(ref, st)
+                if not isinstance(base, Ref) or t is None:
+                    raise Unsupported('cannot havoc %s' % m)
+                st.mut(base).f[node.attr] = fresh(m.replace('.', '_'), t)
+            else:
+                raise Unsupported('cannot havoc %s' % m)
         if c > 0:
             exc = alts[c]
+            if exc.startswith('may:'):
+                exc = exc[4:]
+                v = ip.eval_spec(con.may_raise[exc], st, env)
+                st.assume(ip._z(ip.truth(v, st)))
+                from .interp import Raise
+                raise Raise(ExcVal(exc, (fresh('excarg', ('opt', 'str')),)))
             v = ip.eval_spec(con.raises[exc], st, env)
             st.assume(ip._z(ip.truth(v, st)))
             from .interp import Raise
